@@ -74,18 +74,7 @@ impl Builtins {
         match h {
             Hook::Import => self.import(stack, env, import_stack, pos),
             Hook::Include => self.include(stack, env, pos),
-            Hook::Assert => {
-                if import_stack.is_empty() {
-                    self.assert(stack, env)
-                } else {
-                    // An assertion of an imported file is not one of the file
-                    // that is being tested. Imported files are evaluated once per
-                    // run, so counting it would make the verdict of a file depend
-                    // on which files were tested before it.
-                    stack.pop();
-                    Ok(())
-                }
-            }
+            Hook::Assert => self.assert(stack, env),
             Hook::Convert => self.convert(stack, env, pos),
             Hook::Out => self.out(path, stack, env, pos),
             Hook::Map => self.map(stack, env, import_stack, pos),
@@ -173,7 +162,14 @@ impl Builtins {
                         let mut vm =
                             VM::with_pointer(self.strict, op_pointer, base_path)
                                 .with_import_stack(child_stack);
-                        vm.run(env)?;
+                        // The assertions of an imported file are not assertions of
+                        // the file that imports it. Imported files are evaluated once
+                        // per run, so counting them would make the verdict of a file
+                        // depend on which files were tested before it.
+                        let collected = std::mem::take(&mut env.borrow_mut().assert_results);
+                        let run_result = vm.run(env);
+                        env.borrow_mut().assert_results = collected;
+                        run_result?;
                         let result = Rc::new(vm.symbols_to_tuple(true));
                         env.borrow_mut()
                             .update_path_val(path.clone(), result.clone());
